@@ -12,6 +12,10 @@ from .core import SimHang
 from .core import Tape
 
 
+#: the I/O failures a server's input stream can produce (all are OSError)
+ERRORS = {"oserror": OSError, "timeout": TimeoutError, "reset": ConnectionResetError, "broken_pipe": BrokenPipeError}
+
+
 class SimStream:
     """A WSGI-server-like input stream with only ``read`` (and optionally
     ``readline``).  ``SimStreamInto`` adds ``readinto``."""
@@ -24,7 +28,7 @@ class SimStream:
         fail_at: t.Collection[int] = (),
         max_read: int = 0,
         hang_calls: int | None = None,
-        error: type[BaseException] = OSError,
+        error: type[BaseException] | str = OSError,
     ) -> None:
         self.data = bytes(data)
         self.pos = 0
@@ -54,7 +58,7 @@ class SimStream:
         if idx in self.fail_at:
             self.faults_fired += 1
             self.log.append((kind + "!err", want, 0))
-            raise self.error("simulated I/O error")
+            raise ERRORS.get(self.error, self.error)("simulated I/O error")
         avail = len(self.data) - self.pos
         if want is None or want < 0:
             n = avail
